@@ -117,8 +117,7 @@ void harness(void) {
     ctx.arbitrary_remaining = vin.pre_arbitrary_remaining;
     ctx.cmd_error = vin.pre_cmd_error & 1;
 
-    /* command (non-query) handlers emit nothing: the statement is about the response units of queries */
-    for (u = 0; u < K; u++) if (tmpl[u] != 'Q') VASSUME(vin.nitems[u] % (MAXI + 1) == 0);
+    /* a handler of a non-query header may emit results too (then its unit is a response unit like any other) */
     /* expected output */
     elen = 0;
     for (u = 0; u < K; u++) {
